@@ -160,12 +160,12 @@ impl<'a> Datagram<'a> {
 // (`H3Datagram` is the driver's alias of the proto `Datagram`)
 // bytes::Bytes: assumed external type with a byte-sequence view
 #[verifier::external_body]
-struct Bytes {
+pub struct Bytes {
     b: Vec<u8>,
 }
 
 impl Bytes {
-    uninterp spec fn view(&self) -> Seq<u8>;
+    pub uninterp spec fn view(&self) -> Seq<u8>;
 
     #[verifier::external_body]
     fn len(&self) -> (r: usize)
@@ -190,8 +190,14 @@ fn zeroed_box(n: usize) -> (r: Box<[u8]>) ensures r@.len() == n { vec![0; n].int
 fn box_as_mut_slice(b: &mut Box<[u8]>) -> (r: &mut [u8])
     ensures r@ == old(b)@, final(b)@ == final(r)@,
 { &mut b[..] }
-#[verifier::external_body]
-fn bytes_from_box(b: Box<[u8]>) -> (r: Bytes) ensures r@ == b@ { unimplemented!() }
+impl From<Box<[u8]>> for Bytes {
+    #[verifier::external_body]
+    fn from(b: Box<[u8]>) -> (r: Bytes) ensures r@ == b@ { unimplemented!() }
+}
+impl From<Vec<u8>> for Bytes {
+    #[verifier::external_body]
+    fn from(b: Vec<u8>) -> (r: Bytes) ensures r@ == b@ { unimplemented!() }
+}
 
 #[verifier::external_body]
 fn bytes_slice_from(b: &Bytes, offset: usize) -> (r: Bytes)
@@ -202,7 +208,9 @@ fn bytes_slice_from(b: &Bytes, offset: usize) -> (r: Bytes)
 }
 
 // the RFC 9297 image of a datagram: varint(quarter stream id) || payload
-uninterp spec fn varint_bytes(v: u64) -> Seq<u8>;
+// RFC 9000 16: the encoding of v; its length is varint_len(v), and one-byte values encode as themselves
+uninterp spec fn varint_bytes_long(v: u64) -> Seq<u8>;
+spec fn varint_bytes(v: u64) -> Seq<u8> { if v < 64 { seq![v as u8] } else { varint_bytes_long(v) } }
 spec fn dgram_image(qid: u64, payload: Seq<u8>) -> Seq<u8> { varint_bytes(qid) + payload }
 
 impl<'a> Datagram<'a> {
@@ -300,10 +308,9 @@ impl DriverDatagram {
 //@ rename `H3Datagram::new` => `Datagram::new`
 //@ resub `vec!\[0; ([^\]]*)\]\.into_boxed_slice\(\)` => `zeroed_box(\1)`
 //@ resub `\.write\(&mut buffer\)` => `.write(box_as_mut_slice(&mut buffer))`
-//@ resub `Bytes::from\(buffer\)` => `bytes_from_box(buffer)`
 //@ requires session_id.wf(), payload@.len() <= 0x7fff_ffff_ffff_fff0
 //@ ensures
-//@ | r.quic_dgram@ == dgram_image(session_id.val() / 4, payload@),
+//@ | r.quic_dgram@ =~= dgram_image(session_id.val() / 4, payload@),
 //@ | r.payload_offset == varint_len(session_id.val() / 4),
 //@ | r.session_id == session_id,
 //@ end
